@@ -235,3 +235,17 @@ func init() {
 		Bounds: map[string]interface{}{"guard": "4 constructors x sizes from {0,1,n-1,n,n+1,n/2,2n}^2 minus (n,n) x origin x in {-3,0,5}; nil image", "gray": "RGBA and Gray images of side 2 and 3, origins {0,1,-2}x{0,3}, arbitrary pixel bytes", "distance": "all 64/256-bit hash pairs"},
 	})
 }
+
+func init() {
+	register(&CheckDef{ID: "C06", Level: "model_checking", Timeout: [2]int{300, 1200},
+		Assumptions: []string{"input stream model zzMemReader; bufio interpreted; sync.Pool.Get returns New(); logger at the default level"},
+		Bounds: map[string]interface{}{"payload": "TIFF header + IFD0 {ImageWidth SHORT, Orientation SHORT, Software ASCII[6] out of line}, all values symbolic, II and MM", "containers": "bare TIFF; JPEG (APP0, APP1, DQT, 70 data bytes) through DecodeJPEG and Decode; PNG (one foreign chunk, eXIf); CR3 (ftyp, moov/uuid/CMT1, free)", "outside": "HEIF item-location route, CMT2-4, other surroundings"},
+	})
+	register(&CheckDef{ID: "C04", Level: "model_checking", Timeout: [2]int{400, 1500}, MaxSteps: 30000000,
+		Assumptions: []string{
+			"history = pool contents: after zzPoolHavoc every scalar and every byte of an object returned by sync.Pool.Get is a fresh solver variable (a pooled bufio.Reader keeps valid indices, only its buffer bytes are arbitrary); Put is a no-op",
+			"a violation found here cannot be replayed without a primer call that leaves the solved pool contents; it is reported only if the native run on pristine pools already differs, otherwise as inconclusive candidate",
+		},
+		Bounds: map[string]interface{}{"exif": "IFD0 (3 fields) + IFD1 skeleton under II/MM; one-entry ASCII tags with counts <= 12 reaching past the end of the stream", "hash": "NewPHash64 / NewPHash64Alt on one 64x64 image", "outside": "cacheTimeZone names, alias check of returned objects"},
+	})
+}
